@@ -55,8 +55,11 @@ def install(ctx):
 
 
 def close3e(a, b):
-    """equal at %10.3e precision"""
-    a, b = float(a), float(b)
+    """equal at %10.3e precision (a token that is not a number where a number is expected is simply not equal)"""
+    try:
+        a, b = float(a), float(b)
+    except (TypeError, ValueError):
+        return False
     if a != a and b != b:
         return True
     if a == b:
@@ -65,7 +68,10 @@ def close3e(a, b):
 
 
 def close3f(a, b):
-    a, b = float(a), float(b)
+    try:
+        a, b = float(a), float(b)
+    except (TypeError, ValueError):
+        return False
     if a != a and b != b:
         return True
     if a == b:
